@@ -492,6 +492,7 @@ func (c19) Run(c core.Case) core.Outcome {
 				o.Class = "violation"
 				o.Violation = fmt.Sprintf("generator %s on model %s gives different bytes in separate processes: %s", cs.Gen, cs.Model, firstDiff(string(first), string(out)))
 				o.Sig = "nondeterministic|" + cs.Gen
+				o.Witnessed = true // two different outputs of one model were observed: that is the violation, whether or not it recurs
 				return o
 			}
 		}
@@ -535,6 +536,7 @@ func (c19) Run(c core.Case) core.Outcome {
 				o.Class = "violation"
 				o.Violation = fmt.Sprintf("generator %s on model %s: repeating the generation on the same in-memory model gives different output: %s", cs.Gen, cs.Model, d)
 				o.Sig = "not-repeatable|" + cs.Gen
+				o.Witnessed = true // two different outputs of one model were observed: that is the violation, whether or not it recurs
 				return o
 			}
 		}
@@ -552,6 +554,7 @@ func (c19) Run(c core.Case) core.Outcome {
 				o.Class = "violation"
 				o.Violation = fmt.Sprintf("generator %s on model %s: output under map-iteration start (seed=%d, salt=%d) differs from the seed-0 output: %s %s", cs.Gen, cs.Model, seed, k, firstDiff(string(base), string(got)), errs2)
 				o.Sig = "nondeterministic|" + cs.Gen
+				o.Witnessed = true // two different outputs of one model were observed: that is the violation, whether or not it recurs
 				verifMapControl(true, 0, 0)
 				return o
 			}
@@ -566,6 +569,7 @@ func (c19) Run(c core.Case) core.Outcome {
 		o.Class = "violation"
 		o.Violation = fmt.Sprintf("generator %s on model %s: output with the runtime's random map order differs from the seed-0 output: %s", cs.Gen, cs.Model, firstDiff(string(base), string(got)))
 		o.Sig = "nondeterministic|" + cs.Gen
+		o.Witnessed = true // two different outputs of one model were observed: that is the violation, whether or not it recurs
 		return o
 	}
 	o.Extra = map[string]int{"max_map_entries_iterated_" + cs.Gen: maxMap}
